@@ -782,7 +782,9 @@ func lmScenarios(prop string, thorough bool) []*lmScenario {
 		shapes: []lmShape{
 			{"a", 3, n(0), 0, false, Burstable}, {"b", 3, n(0), 0, false, Guaranteed}, {"c", 2, n(1), 0, false, BestEffort},
 			{"d", 5, n(1), 0, false, Burstable}, {"e", 1, n(0), 0, false, Reservation}, {"f", 9, n(0, 1), 0, false, Burstable},
-		}, reallocs: stdRealloc})
+			// requests that must be refused cleanly: affinity to a node that does not exist, a strict type the machine lacks
+			{"g", 1, n(5), 0, false, Burstable}, {"h", 1, n(0), TypeMaskHBM, true, Guaranteed},
+		}, reallocs: append(stdRealloc, lmRealloc{n(5), 0}, lmRealloc{0, TypeMaskHBM})})
 	// 2. chain of three DRAM nodes (distances 10/11/21)
 	chain := [][]int{{10, 11, 21}, {11, 10, 11}, {21, 11, 10}}
 	add(&lmScenario{name: "chain3", nodes: []lmNode{{D, 4, true, "0"}, {D, 4, true, "1"}, {D, 4, true, "2"}}, dist: chain,
